@@ -22,11 +22,11 @@ var pinFiles = map[string][]string{
 	"C02": {"signing.go"},
 	"C03": {"event_builder.go", "eventV1.go", "eventV2.go", "eventV3.go"},
 	"C04": {"eventcrypto.go"},
-	"C05": {"redactevent.go"},
+	"C05": {"redactevent.go", "eventV1.go:Redact", "eventV2.go:Redact", "eventV3.go:Redact"},
 	"C06": {"eventcrypto.go"},
 	"C07": {"eventauth.go", "eventcontent.go"},
 	"C08": {"eventauth.go", "eventcontent.go"},
-	"C09": {"eventauth.go"},
+	"C09": {"eventauth.go", "stateresolutionv2.go:authAndApplyEvents", "stateresolution.go:resolveAuthBlock,resolveAndAddAuthBlocks"},
 	"C10": {"stateresolution.go", "stateresolutionv2.go", "stateresolutionv2heaps.go"},
 	"C11": {"stateresolution.go", "stateresolutionv2.go", "stateresolutionv2heaps.go"},
 	"C13": {"fclient/request.go"},
@@ -70,6 +70,15 @@ type skelFn struct {
 func skeletonsOf(p *Pkgs, prop string) []skelFn {
 	var out []skelFn
 	for _, file := range pinFiles[prop] {
+		// "file.go" pins every function of the file; "file.go:F,G" only the functions / methods named F and G
+		var only map[string]bool
+		if i := strings.IndexByte(file, ':'); i >= 0 {
+			only = map[string]bool{}
+			for _, n := range strings.Split(file[i+1:], ",") {
+				only[n] = true
+			}
+			file = file[:i]
+		}
 		pk, base := pkgFor(p, file)
 		f, ok := pk.files[base]
 		if !ok {
@@ -77,7 +86,7 @@ func skeletonsOf(p *Pkgs, prop string) []skelFn {
 		}
 		for _, d := range f.Decls {
 			fd, ok := d.(*ast.FuncDecl)
-			if !ok || fd.Body == nil {
+			if !ok || fd.Body == nil || (only != nil && !only[fd.Name.Name]) {
 				continue
 			}
 			recv := ""
